@@ -175,7 +175,7 @@ template<typename K> struct TupleExec {
         case T_TRIM: n.sk->trim(); ctx.require(n.sk->get_num_retained() <= static_cast<uint32_t>(k), fp("trim-leaves-more-than-k").c_str(), ""); break;
         case T_COMPACT: { C c = n.sk->compact(s.b & 1); MTuple a = observe(*n.sk), b = observe(c); compare(b, a, "compact"); C c2(std::move(c)); compare(observe(c2), a, "moved-compact"); ctx.nontrivial = true; break; }
         case T_SERDE: serde(n); break;
-        case T_COPY: { Node& d = nodes[static_cast<size_t>(s.b) % nodes.size()]; if (&d != &n) { d.sk.reset(new U(*n.sk)); d.all = n.all; d.any = n.any; d.theta_prev = n.theta_prev; } else { *n.sk = *n.sk; } ctx.nontrivial = true; break; }
+        case T_COPY: { Node& d = nodes[static_cast<size_t>(s.b) % nodes.size()]; if (&d != &n) { if (s.c & 1) { *d.sk = *n.sk; ctx.probe("copy_assign"); } else d.sk.reset(new U(*n.sk)); d.all = n.all; d.any = n.any; d.theta_prev = n.theta_prev; } else { *n.sk = *n.sk; } ctx.nontrivial = true; break; }   // copy assignment onto a sketch with another theta, or copy construction
         case T_UNION_ADD: {
           MTuple x = observe(*n.sk);
           deliver(*n.sk, static_cast<int>(s.b), (s.c & 1) != 0, [&](auto&& sk) { un->update(std::forward<decltype(sk)>(sk)); });
